@@ -11,47 +11,34 @@ set_option linter.unusedVariables false
 namespace Enc.Lemmas.JsonCodecChoiceEvo
 open Enc.Model.Json.CodecChoice Enc.Lemmas.JsonCodecChoiceSeen Enc.Lemmas.JsonCodecChoiceStd
 
-def Evo (s s' : Seen) : Prop :=
-  (∀ k fs, s.find k = some (.done fs) → s'.find k = some (.done fs)) ∧
-  (∀ k, s'.find k = some .building ↔ s.find k = some .building)
-
-theorem Evo.refl (s : Seen) : Evo s s := ⟨fun _ _ h => h, fun _ => Iff.rfl⟩
-
-theorem Evo.trans {a b c : Seen} (h1 : Evo a b) (h2 : Evo b c) : Evo a c :=
-  ⟨fun k fs h => h2.1 k fs (h1.1 k fs h), fun k => (h2.2 k).trans (h1.2 k)⟩
-
-/-- a named composite type: registered on the way in, deleted on the way out -/
-theorem evo_named (s s1 : Seen) (k : Key) (habs : s.find k = none) (h : Evo (s.set k .building) s1) :
-    Evo s (s1.erase k) := by
-  constructor
-  · intro k' fs hk'
-    have hne : k' ≠ k := by intro e; subst e; rw [habs] at hk'; cases hk'
-    rw [find_erase]; simp only [hne, if_false]
-    apply h.1
-    rw [find_set_ne _ _ _ _ hne]; exact hk'
-  · intro k'
-    rw [find_erase]
-    by_cases hk : k' = k
-    · subst hk; simp [habs]
-    · simp only [hk, if_false]
-      rw [h.2 k', find_set_ne _ _ _ _ hk]
-
-/-- a struct type: registered, then finished -/
-theorem evo_struct (s s2 : Seen) (k : Key) (fs : CL) (habs : s.find k = none) (h : Evo (s.set k .building) s2) :
-    Evo s (s2.set k (.done fs)) := by
-  constructor
-  · intro k' fs' hk'
-    have hne : k' ≠ k := by intro e; subst e; rw [habs] at hk'; cases hk'
-    rw [find_set_ne _ _ _ _ hne]
-    apply h.1
-    rw [find_set_ne _ _ _ _ hne]; exact hk'
-  · intro k'
-    by_cases hk : k' = k
-    · subst hk; simp [find_set_self, habs]
-    · rw [find_set_ne _ _ _ _ hk, h.2 k', find_set_ne _ _ _ _ hk]
-
 def EvoC (codec : CodecFn) : Prop := ∀ t a s c s', codec t a s = some (c, s') → Evo s s'
-def EvoS (strct : StructFn) : Prop := ∀ t a s e s', strct t a s = some (e, s') → Evo s s'
+def EvoS (strct : StructFn) : Prop := ∀ t a root s e s', strct t a root s = some (e, s') →
+  Evo s s' ∧ ∀ r, e = .building r → s' = s ∧ s.find (t, a) = some (.building r)
+def EvoL (list : ListFn) : Prop := ∀ t a R s fs s', list t a R s = some (fs, s') → Evo s s'
+
+theorem embedded_evo (strct : StructFn) (list : ListFn) (hs : EvoS strct) (hl : EvoL list) (typ : TD) (b : Bool)
+    (R : Key) (s s' : Seen) (fs : CL) (h : embeddedF strct list typ b R s = some (fs, s')) : Evo s s' := by
+  unfold embeddedF at h
+  cases h1 : strct typ b (some R) s with
+  | none => simp [h1] at h
+  | some r1 =>
+    obtain ⟨e, s1⟩ := r1
+    obtain ⟨m1, hb⟩ := hs _ _ _ _ _ _ h1
+    simp only [h1] at h
+    cases e with
+    | done fs' => simp at h; rw [← h.2]; exact m1
+    | building r =>
+      obtain ⟨rfl, hfind⟩ := hb r rfl
+      simp only at h
+      split at h
+      · simp at h; rw [← h.2]; exact Evo.refl _
+      · cases h2 : list typ b R (s1.set (typ, b) (.building R)) with
+        | none => simp [h2] at h
+        | some r2 =>
+          obtain ⟨fs2, s2⟩ := r2
+          simp [h2] at h
+          rw [← h.2]
+          exact evo_relist s1 s2 (typ, b) r R hfind (hl _ _ _ _ _ _ h2)
 
 theorem stringify_evo (codec : CodecFn) (hc : EvoC codec) (env : Env) (a : Bool) (ft : TD) (c c' : Choice) (s s' : Seen)
     (h : stringifyF codec env a ft c s = some (c', s')) : Evo s s' := by
@@ -66,25 +53,27 @@ theorem stringify_evo (codec : CodecFn) (hc : EvoC codec) (env : Env) (a : Bool)
       rw [← h.2]; exact hc _ _ _ _ _ hcd
   · simp at h; rw [← h.2]; exact Evo.refl s
 
-theorem fields_evo (codec : CodecFn) (strct : StructFn) (hc : EvoC codec) (hs : EvoS strct) (env : Env) (a : Bool) :
-    ∀ (fl : FL) (s : Seen) (cl : CL) (s' : Seen), fieldsF codec strct env a fl s = some (cl, s') → Evo s s'
+theorem fields_evo (codec : CodecFn) (strct : StructFn) (list : ListFn) (hc : EvoC codec) (hs : EvoS strct)
+    (hl : EvoL list) (env : Env) (a : Bool) (R : Key) :
+    ∀ (fl : FL) (s : Seen) (cl : CL) (s' : Seen), fieldsF codec strct list env a R fl s = some (cl, s') → Evo s s'
   | .nil, s, cl, s', h => by simp [fieldsF] at h; rw [← h.2]; exact Evo.refl s
   | .cons name emb str ft rest, s, cl, s', h => by
     unfold fieldsF at h
     simp only at h
     split at h
-    · cases h1 : strct (peel ft) (a || isPtrKind ft) s with
+    · cases h1 : embeddedF strct list (peel ft) (a || isPtrKind ft) R s with
       | none => simp [h1] at h
       | some r =>
         obtain ⟨e, s1⟩ := r
         simp only [h1] at h
-        cases h2 : fieldsF codec strct env a rest s1 with
+        cases h2 : fieldsF codec strct list env a R rest s1 with
         | none => simp [h2] at h
         | some r2 =>
           obtain ⟨rr, s2⟩ := r2
           simp [h2] at h
           rw [← h.2]
-          exact (hs _ _ _ _ _ h1).trans (fields_evo codec strct hc hs env a rest s1 rr s2 h2)
+          exact (embedded_evo strct list hs hl _ _ R s s1 e h1).trans
+            (fields_evo codec strct list hc hs hl env a R rest s1 rr s2 h2)
     · cases h1 : codec ft a s with
       | none => simp [h1] at h
       | some r =>
@@ -99,13 +88,13 @@ theorem fields_evo (codec : CodecFn) (strct : StructFn) (hc : EvoC codec) (hs : 
             split at h2
             · exact stringify_evo codec hc env a ft c c2 s1 s2 h2
             · simp at h2; rw [← h2.2]; exact Evo.refl s1
-          cases h3 : fieldsF codec strct env a rest s2 with
+          cases h3 : fieldsF codec strct list env a R rest s2 with
           | none => simp [h3] at h
           | some r3 =>
             obtain ⟨rr, s3⟩ := r3
             simp [h3] at h
             rw [← h.2]
-            exact ((hc _ _ _ _ _ h1).trans e2).trans (fields_evo codec strct hc hs env a rest s2 rr s3 h3)
+            exact ((hc _ _ _ _ _ h1).trans e2).trans (fields_evo codec strct list hc hs hl env a R rest s2 rr s3 h3)
 
 theorem kind_evo (env : Env) (f : Nat) (hc : EvoC (codecF f env)) (hs : EvoS (structF f env)) (t u : TD) (a : Bool)
     (s s' : Seen) (c : Choice) (h : kindF (codecF f env) (structF f env) env t u a s = some (c, s')) : Evo s s' := by
@@ -143,20 +132,21 @@ theorem kind_evo (env : Env) (f : Nat) (hc : EvoC (codecF f env)) (hs : EvoS (st
           cases kr with
           | none => simp at h; rw [← h.2, hs2]; exact hc _ _ _ _ _ h1
           | some kc => simp at h; rw [← h.2, hs2]; exact hc _ _ _ _ _ h1
-  · cases h1 : structF f env t a s with
+  · cases h1 : structF f env t a none s with
     | none => simp [h1] at h
-    | some r => obtain ⟨e, s1⟩ := r; simp [h1] at h; rw [← h.2]; exact hs _ _ _ _ _ h1
+    | some r => obtain ⟨e, s1⟩ := r; simp [h1] at h; rw [← h.2]; exact (hs _ _ _ _ _ _ h1).1
   · rename_i e
     cases h1 : codecF f env e true s with
     | none => simp [h1] at h
     | some r => obtain ⟨c1, s1⟩ := r; simp [h1] at h; rw [← h.2]; exact hc _ _ _ _ _ h1
   · simp at h; rw [← h.2]; exact Evo.refl s
 
-theorem main (env : Env) : ∀ f, EvoC (codecF f env) ∧ EvoS (structF f env)
-  | 0 => ⟨fun t a s c s' h => by simp [codecF] at h, fun t a s e s' h => by simp [structF] at h⟩
+theorem main (env : Env) : ∀ f, EvoC (codecF f env) ∧ EvoS (structF f env) ∧ EvoL (listF f env)
+  | 0 => ⟨fun t a s c s' h => by simp [codecF] at h, fun t a root s e s' h => by simp [structF] at h,
+      fun t a R s fs s' h => by simp [listF] at h⟩
   | f + 1 => by
-    obtain ⟨ihc, ihs⟩ := main env f
-    constructor
+    obtain ⟨ihc, ihs, ihl⟩ := main env f
+    refine ⟨?_, ?_, ?_⟩
     · intro t a s c s' h
       rw [codecF] at h
       cases hfs : firstSwitch t with
@@ -169,13 +159,14 @@ theorem main (env : Env) : ∀ f, EvoC (codecF f env) ∧ EvoS (structF f env)
           | some e0 => simp [hf] at h; rw [← h.2]; exact Evo.refl s
           | none =>
             simp only [hf, Option.isSome_none, Bool.false_eq_true, if_false] at h
-            cases hk : kindF (codecF f env) (structF f env) env t (under env t) a (s.set (t, false) .building) with
+            cases hk : kindF (codecF f env) (structF f env) env t (under env t) a
+                (s.set (t, false) (.building (t, false))) with
             | none => simp [hk] at h
             | some r =>
               obtain ⟨c1, s1⟩ := r
               simp [hk] at h
               rw [← h.2]
-              exact evo_named s s1 (t, false) hf (kind_evo env f ihc ihs t _ a _ s1 c1 hk)
+              exact evo_named s s1 (t, false) (t, false) hf (kind_evo env f ihc ihs t _ a _ s1 c1 hk)
         · have hn' : (isRef t && isComposite (under env t)) = false := by simpa using hn
           simp only [hn', Bool.false_and, Bool.false_eq_true, if_false] at h
           cases hk : kindF (codecF f env) (structF f env) env t (under env t) a s with
@@ -185,24 +176,35 @@ theorem main (env : Env) : ∀ f, EvoC (codecF f env) ∧ EvoS (structF f env)
             simp [hk] at h
             rw [← h.2]
             exact kind_evo env f ihc ihs t _ a _ s1 c1 hk
-    · intro t a s e s' h
+    · intro t a root s e s' h
       rw [structF] at h
       cases hf : s.find (t, a) with
-      | some e0 => simp [hf] at h; rw [← h.2]; exact Evo.refl s
+      | some e0 =>
+        simp [hf] at h
+        obtain ⟨rfl, rfl⟩ := h
+        exact ⟨Evo.refl s, fun r he => ⟨rfl, by rw [he]⟩⟩
       | none =>
         simp only [hf] at h
-        cases hfl : fieldsF (codecF f env) (structF f env) env a (fieldsOf env t) (s.set (t, a) .building) with
+        cases hfl : fieldsF (codecF f env) (structF f env) (listF f env) env a (root.getD (t, a)) (fieldsOf env t)
+            (s.set (t, a) (.building (root.getD (t, a)))) with
         | none => simp [hfl] at h
         | some r =>
           obtain ⟨fs, s2⟩ := r
           simp [hfl] at h
-          rw [← h.2]
-          exact evo_struct s s2 (t, a) fs hf (fields_evo _ _ ihc ihs env a _ _ fs s2 hfl)
+          rw [← h.2, ← h.1]
+          exact ⟨evo_struct s s2 (t, a) _ fs hf (fields_evo _ _ _ ihc ihs ihl env a _ _ _ fs s2 hfl), fun r he => by cases he⟩
+    · intro t a R s fs s' h
+      rw [listF] at h
+      exact fields_evo _ _ _ ihc ihs ihl env a R _ s fs s' h
 
 theorem codec_evo (env : Env) (f : Nat) (t : TD) (a : Bool) (s s' : Seen) (c : Choice)
     (h : codecF f env t a s = some (c, s')) : Evo s s' := (main env f).1 t a s c s' h
 
-theorem struct_evo (env : Env) (f : Nat) (t : TD) (a : Bool) (s s' : Seen) (e : Entry)
-    (h : structF f env t a s = some (e, s')) : Evo s s' := (main env f).2 t a s e s' h
+theorem struct_evo (env : Env) (f : Nat) (t : TD) (a : Bool) (root : Option Key) (s s' : Seen) (e : Entry)
+    (h : structF f env t a root s = some (e, s')) : Evo s s' := ((main env f).2.1 t a root s e s' h).1
+
+theorem struct_building (env : Env) (f : Nat) (t : TD) (a : Bool) (root : Option Key) (s s' : Seen) (r : Key)
+    (h : structF f env t a root s = some (.building r, s')) : s' = s ∧ s.find (t, a) = some (.building r) :=
+  ((main env f).2.1 t a root s _ s' h).2 r rfl
 
 end Enc.Lemmas.JsonCodecChoiceEvo
